@@ -276,3 +276,51 @@ package modcache
 //@   ensures [complete] result == nil ==> zipState == 2
 //@   ensures [onlycomplete] zipState != old(zipState) ==> zipState == 2 && result == nil
 //@   assigns heap
+
+// ---- C16: "a cached module file ... is either absent or complete" ----
+// The generic cache-file writer follows the same protocol as the zip download:
+// ghost fileState (0 absent, 1 incomplete, 2 complete) for the final name.
+//@ ghost var fileState int
+//@ spec func CIf() bool { fileState == 0 || fileState == 2 }
+//@ func tempFileAnyEffect
+//@   assumed A-int effect: creates <dir>/<prefix><random>.tmp exclusively (O_EXCL)
+//@   requires tmpState == 0
+//@   ensures result1 == nil ==> result0 != nil && tmpState == 1
+//@   ensures result1 != nil ==> tmpState == 0
+//@   assigns tmpState
+//@ func writeAllEffect
+//@   assumed A-ext effect: (*os.File).Write writes all of the data or returns an error
+//@   requires tmpState == 1
+//@   ensures result1 == nil ==> tmpState == 2
+//@   ensures result1 != nil ==> tmpState == 1
+//@   assigns tmpState
+//@ func renameFileEffect
+//@   assumed A-ext effect: robustio.Rename(tmp, file) is atomic: the final name gets the content of tmp in one step
+//@   requires tmpState == 3
+//@   ensures result == nil ==> fileState == 2 && tmpState == 0
+//@   ensures result != nil ==> fileState == old(fileState) && tmpState == old(tmpState)
+//@   assigns fileState, tmpState
+//@ func (*Cache).writeDiskCache$1
+//@   strings abstract
+//@   may_panic
+//@   callsite (*os.File).Close#0 contract closeTmpEffect
+//@   callsite os.Remove#0 contract removeOwnTmpEffect
+//@   ensures fileState == old(fileState)
+//@   assigns tmpState
+
+// (P) C16: the cache file appears under its final name only by an atomic rename
+// of a fully written and closed temporary file; a failed write, close or rename
+// leaves the final name as it was (absent or the previous complete content)
+//@ func (*Cache).writeDiskCache
+//@   strings abstract
+//@   may_panic
+//@   callsite modcache.tempFile#0 contract tempFileAnyEffect
+//@   callsite (*os.File).Write#0 contract writeAllEffect
+//@   callsite (*os.File).Close#0 contract closeTmpEffect
+//@   callsite robustio.Rename#0 contract renameFileEffect
+//@   requires CIf() && tmpState == 0
+//@   effect robustio.Rename#0 requires arg1 == file
+//@   always CIf()
+//@   ensures [complete] result == nil && file != "" ==> fileState == 2
+//@   ensures [onlycomplete] fileState != old(fileState) ==> fileState == 2 && result == nil
+//@   assigns heap
